@@ -40,6 +40,13 @@ func (fullGraph *FullGraph) MergeHeaderFile(merge func(string) string) *FullGrap
 	}
 	for key := range fullGraph.RelationList {
 		relation := fullGraph.RelationList[key]
+		// a relation that leaves the graph (non-project type, excluded entry class) has no image in the merged graph
+		if _, ok := fullGraph.NodeList[relation.From]; !ok {
+			continue
+		}
+		if _, ok := fullGraph.NodeList[relation.To]; !ok {
+			continue
+		}
 		mergedFrom := merge(relation.From)
 		mergedTo := merge(relation.To)
 		if mergedFrom == mergedTo {
